@@ -27,7 +27,7 @@ import (
 var Check = &mc.Check{
 	ID:    "C19",
 	Level: "model_checking",
-	Rule: "histories = all strings of 1..3 per-request outcomes over {ok, handler panic + recovery, malformed header, body too large, peer closes mid-body, write error, hijack} (a terminal outcome ends the string) x end of connection {peer EOF, idle time-out, Connection: close on the last request} x idle handling {IdleTimeout>0 in-loop, IdleTimeout==0 re-entry per request} x trace level {base, detailed} x {buffered, streaming} x delivery {pipelined in one read, one read per request}; " +
+	Rule: "histories = all strings of 1..3 (thorough 1..6) per-request outcomes over {ok, handler panic + recovery, malformed header, body too large, peer closes mid-body, write error, hijack} (a terminal outcome ends the string) x end of connection {peer EOF, idle time-out, Connection: close on the last request} x idle handling {IdleTimeout>0 in-loop, IdleTimeout==0 re-entry per request} x trace level {base, detailed} x {buffered, streaming} x delivery {pipelined in one read, one read per request}; " +
 		"non-trivial = histories with more than one request or a failing outcome",
 	Run:         run,
 	Replay:      replay,
@@ -274,14 +274,14 @@ func (w *worker) exec(c *mc.Ctx, cs Case) {
 	}
 }
 
-func histories() []string {
+func histories(maxLen int) []string {
 	var out []string
 	var rec func(s string)
 	rec = func(s string) {
 		if s != "" {
 			out = append(out, s)
 		}
-		if len(s) == 3 || (s != "" && terminal(s[len(s)-1])) {
+		if len(s) == maxLen || (s != "" && terminal(s[len(s)-1])) {
 			return
 		}
 		for i := 0; i < len(outcomes); i++ {
@@ -293,7 +293,12 @@ func histories() []string {
 }
 
 func run(c *mc.Ctx) {
-	hs := histories()
+	maxLen := 3
+	if c.Thorough() {
+		maxLen = 6
+	}
+	hs := histories(maxLen)
+	c.Extra("max_requests_per_connection", maxLen)
 	c.Extra("histories", len(hs))
 	var cases []Case
 	for _, h := range hs {
